@@ -1155,7 +1155,11 @@ class Server:
             raise NotImplementedError(message)
 
         if connection.future.user.done():
-            connection.current_directory = connection.user.home_path
+            # the working directory is kept in its normalised form
+            _, connection.current_directory = self.get_paths(
+                connection,
+                connection.user.home_path,
+            )
             if connection.user not in self.throttle_per_user:
                 throttle = StreamThrottle.from_limits(
                     connection.user.read_speed_limit,
